@@ -58,7 +58,16 @@ def st_class_case(draw, deco_kw, hier_kw):
     prog, kind, mname = draw(G.st_hierarchy(ids, deco_kw=deco_kw, **hier_kw))
     ops = []
     for ci, c in enumerate(prog["classes"]):
-        ops.append({"op": "new", "cls": ci, "k": ci, "args": {}})
+        anc = set()
+        stack = [ci]
+        while stack:
+            k = stack.pop()
+            if k not in anc:
+                anc.add(k)
+                stack += prog["classes"][k].get("bases", [])
+        takes_args = any(m["kind"] in ("init", "new") for k in anc for m in prog["classes"][k]["members"])
+        cargs = draw(st.sampled_from([{}, {}, {"x": "a:cx"}, {"x": "a:cx", "y": "a:cy"}])) if takes_args else {}
+        ops.append({"op": "new", "cls": ci, "k": ci, "args": cargs})
         f = None
         for cj in range(ci, -1, -1):
             for m in prog["classes"][cj]["members"]:
